@@ -3,6 +3,7 @@ package checks
 import (
 	"fmt"
 	"math"
+	"strings"
 	"time"
 
 	. "github.com/gontainer/gontainer/xverif/core"
@@ -330,6 +331,25 @@ func init() {
 					{Ops: append([]ProbeOp{opTag("tagged", "t"), op("get", "consumer"), ov, ov2}, append(after, op("get", "brandNew"))...)},
 				}})
 			}
+			// (J) decorators of the container's own package (no qualifier) before, between and after qualified ones
+			for v := 0; v < 8; v++ {
+				cfg := &Cfg{Meta: stdMeta()}
+				fns := []string{"pk.Dec1", "pk2.Dec2", "pk.Dec3"}
+				id := ""
+				for k := 0; k < 3; k++ {
+					fn := fns[k]
+					if v&(1<<uint(k)) != 0 {
+						fn = fn[strings.Index(fn, ".")+1:] // the local function of the same name
+						id += "L"
+					} else {
+						id += "Q"
+					}
+					cfg.Decorators = append(cfg.Decorators, Decorator{Tag: "t", Decorator: fn, Args: []any{k}})
+				}
+				cfg.Services = []Service{{Name: "sa", Constructor: P("pk.New1"), Tags: []Tag{{Name: "t"}}}, {Name: "sb", Constructor: P("New2"), Tags: []Tag{{Name: "t", Priority: P(1)}}},
+					{Name: "sc", Constructor: P("pk.New3")}, {Name: "consumer", Constructor: P("pk2.New"), Args: []any{"!tagged t"}}}
+				cases = append(cases, &BCase{ID: "J/local-and-qualified-decorators=" + id, Cfg: cfg, Local: true, Sessions: []BSession{{Ops: stdOps()}}})
+			}
 			// (D) scopes of carriers
 			scopes := []*string{nil, P("shared"), P("non_shared"), P("contextual")}
 			for a := 0; a < 4; a++ {
@@ -349,6 +369,20 @@ func init() {
 						Sessions: []BSession{{Ops: stdOps(opCtx("getctx", "A", "sa"), opCtx("getctx", "B", "consumer"), opCtx("taggedctx", "B", "t"), op("get", "consumer"), op("counters", ""))}}})
 				}
 			}
+			// the tag objects, priorities and decorator entries mean the same however the YAML presents them
+			w.Case("yaml-presentation", func(c *C) {
+				cfg := &Cfg{Meta: stdMeta(), Params: []Param{{"p", 3}}}
+				cfg.Services = []Service{
+					{Name: "sa", Constructor: P("pk.New1"), Tags: []Tag{{Name: "t", Priority: P(7)}, {Name: "u", Priority: P(-2)}}},
+					{Name: "sb", Constructor: P("pk.New2"), Tags: []Tag{{Name: "t", Priority: P(7)}, {Name: "u", MapForm: true}}, Calls: []Call{{Method: "Set1", Args: []any{"@dep", "%p%"}}, {Method: "With1", Args: []any{"@dep", "%p%"}, Immutable: P(true)}}},
+					{Name: "sc", Constructor: P("pk.New3"), Tags: []Tag{{Name: "t"}}, Args: []any{"@dep", "%p%"}},
+					{Name: "consumer", Constructor: P("pk2.New"), Args: []any{"!tagged t", "!tagged u"}},
+					{Name: "dep", Constructor: P("pk.New")},
+				}
+				cfg.Decorators = []Decorator{{Tag: "t", Decorator: "pk.Dec1", Args: []any{"@dep", "%p%"}}, {Tag: "u", Decorator: "pk2.Dec2"}, {Tag: "t", Decorator: "pk.Dec3", Args: []any{"@dep", "%p%"}}}
+				c.Distinct("all", c.ID)
+				w.ShapeInvarianceOK(c, "tags-and-decorators", []File{{"c.yaml", cfg.YAML()}}, true)
+			})
 			runBatches(w, "c04", cases, 40, behaviourOracle)
 		},
 	})
